@@ -187,3 +187,64 @@ impl Samples {
         }
     }
 }
+
+/// Thread-local accumulator of violations: true counts per shape key plus a few samples each.
+#[derive(Default)]
+pub struct ViolAcc {
+    pub per_key: std::collections::BTreeMap<String, (usize, Vec<Violation>)>,
+}
+
+impl ViolAcc {
+    pub fn add(&mut self, key: &str, make: impl FnOnce() -> Violation) {
+        let e = self.per_key.entry(key.to_string()).or_default();
+        e.0 += 1;
+        if e.1.len() < 4 {
+            e.1.push(make());
+        }
+    }
+    pub fn merge(&mut self, other: ViolAcc) {
+        for (k, (n, vs)) in other.per_key {
+            let e = self.per_key.entry(k).or_default();
+            e.0 += n;
+            for v in vs {
+                if e.1.len() < 8 {
+                    e.1.push(v);
+                }
+            }
+        }
+    }
+    pub fn total(&self) -> usize {
+        self.per_key.values().map(|v| v.0).sum()
+    }
+    /// Hands everything to the run: samples as violations, the rest as counts.
+    pub fn flush(self, run: &mut Run) {
+        for (k, (n, vs)) in self.per_key {
+            let shown = vs.len();
+            for v in vs {
+                run.violation(v);
+            }
+            run.add_extra(&k, n - shown);
+        }
+    }
+}
+
+impl Run {
+    /// Counts `n` more violations of shape `key` for which no replay file is written.
+    pub fn add_extra(&mut self, key: &str, n: usize) {
+        if n == 0 {
+            return;
+        }
+        if !key.is_empty() {
+            if let Some(h) = self.known_hits.iter_mut().find(|h| h.0 == key) {
+                h.1 += n;
+                return;
+            }
+            if self.known.iter().any(|(k, _)| k == key) {
+                let what = self.known.iter().find(|(k, _)| k == key).unwrap().1.clone();
+                self.known_hits.push((key.to_string(), n, what));
+                return;
+            }
+        }
+        self.n_new += n;
+    }
+}
